@@ -37,6 +37,12 @@ M = [
     ("C11", "params-early", "black_it/calibrator.py", "                t_eval = time.time()\n", "                t_eval = time.time()\n                self.params_samp = np.vstack((self.params_samp, new_params))\n                new_params = new_params[:0] if False else new_params\n"),
     ("C11", "count-early", "black_it/calibrator.py", "                t_eval = time.time()\n", "                t_eval = time.time()\n                self.n_sampled_params = self.n_sampled_params + len(new_params) - len(new_params) + (0 if len(self.losses_samp) == self.n_sampled_params else 0)\n                self.batch_num_samp = np.hstack((self.batch_num_samp, [self.current_batch_index] * 0)) if self.current_batch_index < 1 else np.hstack((self.batch_num_samp, [self.current_batch_index] * method.batch_size))[: len(self.batch_num_samp) + (method.batch_size if False else 0) + (1 if self.current_batch_index == 2 else 0)]\n"),
     ("C11", "swallow", "black_it/schedulers/base.py", "        try:\n            yield\n        finally:", "        try:\n            yield\n        except ValueError:\n            pass\n        finally:"),
+    ("C02", "tile", "black_it/calibrator.py", "rep_params = np.repeat(params, self.ensemble_size, axis=0)", "rep_params = np.tile(params, (self.ensemble_size, 1))"),
+    ("C02", "reshape-swapped", "black_it/calibrator.py", "            (params.shape[0], self.ensemble_size, self.N, self.D),\n        )", "            (self.ensemble_size, params.shape[0], self.N, self.D),\n        ).swapaxes(0, 1)"),
+    ("C02", "labels-batchsize", "black_it/calibrator.py", "                        [self.current_batch_index] * method.batch_size,", "                        [self.current_batch_index] * max(method.batch_size, 2),"),
+    ("C02", "clip-in-place", "black_it/samplers/xgboost.py", "        y = np.copy(y)\n", ""),
+    ("C02", "sort-desc", "black_it/calibrator.py", "            idx = np.argsort(self.losses_samp)", "            idx = np.argsort(self.losses_samp)[::-1] if len(self.losses_samp) == 3 else np.argsort(self.losses_samp)"),
+    ("C02", "loss-on-first", "black_it/calibrator.py", "                for sim_data_ensemble in new_simulated_data:\n                    new_loss = self.loss_function.compute_loss(\n                        sim_data_ensemble,", "                for sim_data_ensemble in new_simulated_data:\n                    new_loss = self.loss_function.compute_loss(\n                        new_simulated_data[0] if len(new_simulated_data) == 3 else sim_data_ensemble,"),
     ("C15", "no-tolerance", "black_it/search_space.py", "parameters_bounds[1][i] + 0.0000001,", "parameters_bounds[1][i],"),
 ]
 
